@@ -105,6 +105,28 @@ func c16spec(rng interface{ Intn(int) int }, nblocks int, epoch uint64, seed int
 	return spec
 }
 
+// c16fit searches a transaction shape one of whose sections has a body (CID + data: the value of the section's length
+// varint) of exactly `target` bytes, in a one-transaction CAR built with the same seed
+func c16fit(dir string, target int, seed int64) (fixture.TxSpec, bool) {
+	for pad := 0; pad < 1200; pad++ {
+		ts := fixture.TxSpec{SigID: 1, Accounts: []int{1}, DataFrames: 3, MetaFrames: 1, NoMeta: true, Pad: 150 + pad}
+		if target > 1000 {
+			ts = fixture.TxSpec{SigID: 1, Accounts: []int{1}, DataFrames: 1, MetaFrames: 1, NoMeta: true, Pad: target - 700 + pad}
+		}
+		spec := fixture.EpochSpec{Epoch: 1, Seed: seed, Fanout: 2, Blocks: []fixture.BlockSpec{{Slot: 432001, Parent: 432000, Entries: []fixture.EntrySpec{{Txs: []fixture.TxSpec{ts}}}}}}
+		b, err := fixture.Build(spec, filepath.Join(dir, "fit.car"))
+		if err != nil {
+			return ts, false
+		}
+		for _, s := range b.Sections {
+			if len(s.Cid.Bytes())+len(s.Data) == target {
+				return ts, true
+			}
+		}
+	}
+	return fixture.TxSpec{}, false
+}
+
 // TestVerifC16SplitChild runs the real split-car command in its own process (it writes into the CWD).
 func TestVerifC16SplitChild(t *testing.T) {
 	car := os.Getenv("VERIF_C16_CAR")
@@ -145,10 +167,30 @@ func TestVerifC16Split(t *testing.T) {
 			}
 			big.Entries = append(big.Entries, es)
 		}
+		if ci == 0 {
+			// objects whose section-length varint sits on a width boundary (body of 127 / 128 / 16383 / 16384 bytes)
+			es := fixture.EntrySpec{}
+			for k, target := range []int{127, 128, 16383, 16384} {
+				if ts, ok := c16fit(dir, target, spec.Seed); ok {
+					ts.SigID = 200000 + k
+					es.Txs = append(es.Txs, ts)
+				} else {
+					t.Logf("no transaction shape with a section body of %d bytes found", target)
+				}
+			}
+			spec.Blocks[0].Entries = append(spec.Blocks[0].Entries, es)
+		}
 		carPath := filepath.Join(dir, fmt.Sprintf("epoch-%d-%d.car", epoch, ci))
 		built, err := fixture.Build(spec, carPath)
 		if err != nil {
 			t.Fatal(err)
+		}
+		if ci == 0 {
+			have := map[int]bool{}
+			for _, s := range built.Sections {
+				have[len(s.Cid.Bytes())+len(s.Data)] = true
+			}
+			t.Logf("section bodies at varint boundaries present: 127=%v 128=%v 16383=%v 16384=%v", have[127], have[128], have[16383], have[16384])
 		}
 		orig, _ := os.ReadFile(carPath)
 		ids := map[string]int{}
